@@ -19,6 +19,10 @@ from . import defuse as DU
 from . import fsmodel as FSM, boundary
 
 OU = "pyxel/outputs/utils.py"
+BOUNDED = {
+    r'^save ': 'request lists of 1..3 file names (one bucket requested twice, non-adjacent)',
+    r'^names build\.names': 'a save configuration of two buckets and three formats',
+}      # unit-name / obligation-name patterns -> the family these obligations are proved for
 OO = "pyxel/outputs/outputs.py"
 TRUSTED = ["Path.mkdir(exist_ok=False) is atomic; np.save/np.savetxt/PIL save/to_csv/h5py 'w' create or truncate; fits writeto(overwrite=False) refuses existing files",
            "lossless formats read back bit-identically (numpy / astropy I/O) — not proved", "rely condition: other actors only ADD files",
@@ -281,3 +285,110 @@ def complete(u: Unit):
              f"exposure.run_pipeline saves the requested names of THIS processor into the current output folder: guarded={guarded} args={kw}")
     from . import C07
     C07.fileindex(u)
+
+
+# ---- save_to_files: each requested name is written once, from ITS bucket of THIS processor, and reported once ------------
+SAVE_REPLAY = lambda w: {"code": """
+import numpy as np, tempfile, pathlib, verif_probes as VP
+from pyxel.outputs.utils import save_to_files
+from pyxel.pipelines import DetectionPipeline, Processor
+VIOLATED, DETAIL = False, 'every requested file was written from its own bucket and reported exactly once'
+det = VP.detector(rows=2, cols=3)
+det.pixel.array = np.full((2, 3), 5.0); det.signal.array = np.full((2, 3), 0.5); det.image.array = np.full((2, 3), 7, dtype=np.uint16)
+proc = Processor(detector=det, pipeline=DetectionPipeline())
+folder = pathlib.Path(tempfile.mkdtemp())
+names = ['detector_image_3.fits', 'detector_pixel_3.npy', 'detector_image_3.npy', 'detector_signal_3.npy']
+tree = save_to_files(folder=folder, processor=proc, filenames=[pathlib.Path(n) for n in names], header=None)
+want = {'image': np.full((2, 3), 7), 'pixel': np.full((2, 3), 5.0), 'signal': np.full((2, 3), 0.5)}
+for n in names:
+    bucket = n.split('_')[1]
+    f = folder / n
+    if not f.exists():
+        VIOLATED, DETAIL = True, f'{n} was requested but not written'; break
+    data = np.load(f) if n.endswith('.npy') else __import__('astropy.io.fits', fromlist=['x']).getdata(f)
+    if not np.array_equal(data, want[bucket]):
+        VIOLATED, DETAIL = True, f'{n} holds {np.asarray(data).ravel()[:2]}, the {bucket} bucket holds {want[bucket].ravel()[:2]}'; break
+    reported = [str(x) for x in np.atleast_1d(tree[f'/{bucket}']['filename'].values)] if f'/{bucket}' in tree.groups else []
+    if sum(1 for r in reported if r.endswith(n)) != 1:
+        VIOLATED, DETAIL = True, f'{n}: reported {sum(1 for r in reported if r.endswith(n))} time(s) under /{bucket}: {reported}'; break
+""", "expect": "one written file and one reported entry per requested (bucket, format) name, holding that bucket"}
+
+
+@unit("C19", "save")
+def save_unit(u: Unit):
+    """save_to_files executed on request lists of 1..3 names (buckets and formats chosen to include a bucket requested twice in
+    non-adjacent positions): per name exactly one write_to_<format>(filename = folder/name, data = np.asarray(processor.get(
+    'detector.<bucket of the name>'))), no overwrite unless asked, and the reported tree lists, per bucket, exactly the files of
+    that bucket, in request order."""
+    fi = u.fn(f"{OU}::save_to_files")
+    requests = [["detector_image_3.fits"], ["detector_image_3.fits", "detector_pixel_3.npy"], ["detector_image_3.fits", "detector_pixel_3.npy", "detector_image_3.npy"],
+                ["detector_signal.npy", "detector_image.jpg"]]
+    for names in requests:
+        cfg = Cfg("real")
+        boundary.install(cfg)
+        FSM.install(cfg)
+        for wname in ("write_to_fits", "write_to_npy", "write_to_jpg"):
+            q = f"{OU}::{wname}"
+            cfg.contracts[q] = Contract(q, lambda ex, args, kwargs, fr, wname=wname: (ex.hold["writes"].append((wname, dict(kwargs))), NONE)[1], "C19.write: refuses existing files unless overwrite")
+        cfg.lib_overrides[("np.array_of",)] = lambda ex, v, dtype, fr: VOpaque("xr", ex.st.fresh_int("arr"), {"label": "asarray", "of": v})
+        cfg.lib_overrides["numpy.dtypes.StringDType"] = lambda ex, f, args, kwargs, fr: VDtype("str")
+        cfg.lib_overrides["numpy.object_"] = lambda ex, f, args, kwargs, fr: VDtype("object")
+
+        def setup(ex, names=names):
+            h = ex.hold = {"writes": [], "gets": []}
+            h["proc"] = VOpaque("xr", ex.st.fresh_int("xr"), {"label": "processor", "truthy": True})
+            folder = FSM.mk_path(ex, "/out/run_1")
+            return [], {"folder": folder, "processor": h["proc"], "filenames": ex.st.alloc(HList([FSM.mk_path(ex, n) for n in names])), "header": NONE}
+        base_call = cfg.lib_overrides[("call", "xr")]
+
+        def call(ex, f, args, kwargs, fr):
+            r = base_call(ex, f, args, kwargs, fr)
+            if str(f.info.get("label", "")) == "processor.get":
+                r.info["bucket_key"] = args[0] if args else kwargs.get("key")
+                r.info["label"] = "bucket"
+            return r
+        cfg.lib_overrides[("call", "xr")] = call
+        base_attr = cfg.lib_overrides[("opaque_attr", "xr")]
+        cfg.lib_overrides[("opaque_attr", "xr")] = lambda ex, obj, name, fr: VOpaque("xr", ex.st.fresh_int("a"), {"label": "bucket._array", "truthy": True}) if (name == "_array" and obj.info.get("label") == "bucket") else base_attr(ex, obj, name, fr)
+        tag = "+".join(n.replace("detector_", "") for n in names)
+        ps = u.paths(fi, setup, cfg, label=f"save_to_files[{tag}]")
+        n_ret = 0
+        for p in ps:
+            if p.kind != "return":
+                continue          # an uninitialised bucket / unknown name raises: nothing is reported
+            n_ret += 1
+            ws = p.ex.hold["writes"]
+            ok = len(ws) == len(names)
+            for (wname, kw), n in zip(ws, names):
+                bucket, ext = n.split("_")[1].split(".")[0], n.rsplit(".", 1)[1]
+                fn_ = kw.get("filename")
+                d = kw.get("data")
+                src = d.info.get("of") if isinstance(d, VOpaque) else None
+                key = src.info.get("bucket_key") if isinstance(src, VOpaque) else None
+                ok = ok and wname == {"fits": "write_to_fits", "npy": "write_to_npy", "jpg": "write_to_jpg"}[ext] and isinstance(fn_, VOpaque) and fn_.kind == "path" \
+                    and str(z3.simplify(FSM.path_text(fn_))).strip('"') == "/out/run_1/" + n and isinstance(key, VStr) and key.v == f"detector.{bucket}" \
+                    and isinstance(src, VOpaque) and src.info.get("fn") is not None and src.info["fn"].info.get("of") is p.ex.hold["proc"]
+                ow = kw.get("overwrite")
+                ok = ok and (ow is None or (isinstance(ow, VBool) and ow.v is False))
+            u.oblige(p, f"save.one_write_per_name_from_its_bucket[{tag}]", bool(ok), {"writes": str([(w_, str(k.get('filename'))) for w_, k in ws])[:200]}, SAVE_REPLAY)
+            # the reported tree: DataTree.from_dict({bucket: concat([DataArray(str(path), coords extension)...])})
+            fd = [e for e in p.st.events if e[0] == "lib_call" and e[1] == "xarray.DataTree.from_dict"]
+            rep_ok = len(fd) == 1 and isinstance(fd[0][2][0], VRef)
+            if rep_ok:
+                got = {}
+                for k, v in p.st.cell(fd[0][2][0]).items:
+                    node = v
+                    while isinstance(node, VOpaque) and node.info.get("fn") is not None and str(node.info.get("label", "")) != "xarray.concat()":
+                        node = node.info["fn"].info.get("of")
+                    parts = p.ex.try_list(node.info["args"][0]) if isinstance(node, VOpaque) and node.info.get("args") else None
+                    texts = []
+                    for da in parts or []:
+                        a0 = (da.info.get("args") or [None])[0] if isinstance(da, VOpaque) else None
+                        texts.append(str(z3.simplify(z_str(a0.v))).strip('"') if isinstance(a0, VStr) else None)
+                    got[k.v] = texts
+                want = {}
+                for n in names:
+                    want.setdefault(n.split("_")[1].split(".")[0], []).append("/out/run_1/" + n)
+                rep_ok = got == want
+            u.oblige(p, f"save.reported_once_per_name[{tag}]", bool(rep_ok), {}, SAVE_REPLAY)
+        u.cover(f"save.cover[{tag}]", [1] * n_ret, lambda _: True)
